@@ -186,6 +186,24 @@ CLAIMS.update({
         design='4/C16'),
 })
 
+CLAIMS.update({
+    'C11': dict(
+        text='R-WAITRETURN over every WaitRange instantiation (timed/untimed, unique/shared, variadic/iterator): after '
+             'the reset pass a return happens only when every registration was withdrawn / the counter reached zero, '
+             'or after the untimed wait returned, so no producer can touch the returned stack frame; R-COUNTER '
+             '(inputs+1, count-wait_count+1); R-WITHDRAW (Reset never replaces the result sentinel); R-EVENT '
+             '(MutexEvent lock discipline, notify under the mutex, re-test after wake-up, predicate timed waits); '
+             'R-NODISCARD; compile-fail witnesses that timed waits reject shared handles. Timing (deadline vs return '
+             'value) and the race itself are not decided.',
+        technique='per-path rules over clang CFGs of all WaitRange instantiations + compile-fail type witnesses',
+        design='4/C11'),
+})
+CLAIMS['C12']['text'] = ('R-HEAD (every head kind can be started through Here/Next), R-START (both Start overloads '
+                         'rewind first and bind/submit the head returned by MoveToCaller), R-REWIND, R-LAZYATTACH (link '
+                         '+ plain store, nothing runs), R-NOSTART (factories start nothing), R-CANCEL (~Task cancels '
+                         'exactly a valid not-completed task on the stopped inline executor; Detach/ToFuture go through '
+                         'Start). Equality with the eager pipeline needs execution: not decided.')
+
 NOT_YET = {}
 
 
